@@ -283,6 +283,34 @@ func runCheck(id string, opts checkOpts) *checkResult {
 		}
 		all = append(all, o)
 	}
+	// thorough tier: the failing histories of the repaired defects of this property are replayed on the real code
+	// (labelled bounded: a test, never counted as proved)
+	if opts.tier == "thorough" && opts.overlay == nil {
+		for _, spec := range loadReplaySpecs() {
+			mine := false
+			for _, pid := range spec.Regress {
+				if pid == id {
+					mine = true
+				}
+			}
+			if !mine {
+				continue
+			}
+			out, confirmed := runReplay(spec, "")
+			o := &Obligation{Fn: "bounded", Kind: "bounded", Label: "regression-replay:" + spec.Run, Goal: "true", decls: newDecls(), Bounded: true, precomputed: true, Solver: "go test (one recorded history on the real code)",
+				Detail: "the failing history of a repaired defect (known_findings.txt, obligation " + spec.Match + ") does not reproduce on the current tree"}
+			o.Model = out
+			switch {
+			case confirmed:
+				o.Status = "sat"
+			case strings.Contains(out, "REPLAY-NOT-REPRODUCED"):
+				o.Status = "unsat"
+			default:
+				o.Status = "unknown"
+			}
+			all = append(all, o)
+		}
+	}
 	discharge(all, runDir, opts.timeoutS, 16, opts.tier == "thorough")
 	finalizeDryRun(all)
 	if os.Getenv("VERIF_SLOW") != "" {
@@ -453,6 +481,9 @@ func runCheck(id string, opts checkOpts) *checkResult {
 		os.MkdirAll(replayDir, 0o755)
 		rp := filepath.Join(replayDir, fmt.Sprintf("%s-%s.replay.txt", id, smtSym(name)))
 		confirmed := writeReplay(rp, id, o, cfg, prog)
+		if o.Kind == "bounded" && strings.HasPrefix(o.Label, "regression-replay:") && strings.Contains(o.Model, "REPLAY-CONFIRMED") {
+			confirmed = true // the recorded failing history was just run against the real code and reproduced
+		}
 		suffix := ""
 		if !confirmed {
 			suffix = " no-failing-input-found"
